@@ -170,3 +170,73 @@ func init() {
 		return f
 	}
 }
+
+// TestWriteRegress (only with C12_WRITE_REGRESS=1) regenerates testdata/regress: one small case
+// per defect or mutant class that this check has caught, kept as a permanent regression.
+func TestWriteRegress(t *testing.T) {
+	if os.Getenv("C12_WRITE_REGRESS") == "" {
+		t.Skip("C12_WRITE_REGRESS not set")
+	}
+	dir := filepath.Join(filepath.Dir(filepath.Dir(filepath.Dir(corpusDir()))), "testdata", "regress")
+	if err := os.MkdirAll(dir, 0o755); err != nil {
+		t.Fatal(err)
+	}
+	one := SnapCase{Epoch: 2, Segs: []SegSpec{{ID: 7, Type: []byte("ice"), Version: 1, Del: BMSpec{Mode: "conts", Conts: []ContSpec{{Key: 0, Kind: "array", Start: 1, N: 3, Step: 2}}}}}}
+	empty := SnapCase{Epoch: 2}
+	oneFile, _ := RejectCase{Snap: &one}.baseFile()
+	spans := judge(oneFile).Spans
+	var typelen, typ fieldSpan
+	for _, s := range spans {
+		if s.Name == "typelen" {
+			typelen = s
+		}
+		if s.Name == "type" {
+			typ = s
+		}
+	}
+	// a snapshot whose last entry leaves fewer than ten bytes for the last peek
+	short := SnapCase{Epoch: 1, Segs: []SegSpec{{ID: 1, Type: []byte("ice"), Version: 1}, {ID: 2, Type: []byte("x"), Version: 3}}}
+	// an entry with a 10-byte type name whose version starts at body offset 4094
+	straddle := SnapCase{Epoch: 1}
+	sum := 2 // format + count (fewer than 128 entries)
+	for sum+67 < 4094-15-7 {
+		straddle.Segs = append(straddle.Segs, SegSpec{ID: 5, Type: []byte(strings.Repeat("f", 60)), Version: 9})
+		sum += 67
+	}
+	fill := 4094 - 11 - sum - 7 // the aimed entry's type length byte sits at 4094-11
+	straddle.Segs = append(straddle.Segs, SegSpec{ID: 5, Type: []byte(strings.Repeat("p", fill)), Version: 7},
+		SegSpec{ID: 1 << 40, Type: []byte("long-type."), Version: 0x01020304}, SegSpec{ID: 9, Type: []byte("ice"), Version: 1})
+	if f, file, _ := propRoundTrip(straddle); f != nil || !versionStraddles(judge(file)) {
+		t.Fatalf("straddle recipe is off: %v", f)
+	}
+	cases := []struct {
+		name, test, note string
+		c                interface{}
+	}{
+		{"incomplete-structure-5-byte-file", "reject", "format version + matching checksum, no segment count (fix 73da088)",
+			RejectCase{Snap: &empty, Layout: "new", Path: "mem", Mut: Mut{Kind: "trunc", Pos: 5, FixCRC: true}}},
+		{"incomplete-structure-cut-before-dellen", "reject", "cut before the last deleted-set length, checksum repaired (fix 73da088)",
+			RejectCase{Snap: &short, Layout: "new", Path: "mem", Mut: Mut{Kind: "trunc", Pos: 23, FixCRC: true}}},
+		{"trailing-bytes", "reject", "four bytes between the last segment and a matching trailer (fix f61b6fd)",
+			RejectCase{Snap: &one, Layout: "new", Path: "mem", Mut: Mut{Kind: "tail", Data: []byte{0, 0, 0, 0}, FixCRC: true}}},
+		{"trailing-bytes-beyond-buffer", "reject", "a copy of the file and 4 KiB after the last segment, trailer = CRC of everything (more than the decoder buffers)",
+			RejectCase{Snap: &one, Layout: "two", Path: "mem", Mut: Mut{Kind: "tail", Data: append(append([]byte(nil), oneFile...), make([]byte, 4096)...), FixCRC: true}}},
+		{"hostile-typelen-content-dropped", "reject", "type length 2^63 with nothing behind it, checksum repaired (mutant m13)",
+			RejectCase{Snap: &one, Layout: "new", Path: "mem", Mut: Mut{Kind: "splice", Pos: typelen.From, To: typ.To, Data: putUvarint(nil, 1<<63), FixCRC: true}, Isolate: true}},
+		{"hostile-dellen", "reject", "deleted-set length 2^40 (revert of d2f92b9: fatal allocation)",
+			RejectCase{Snap: &one, Layout: "new", Path: "mem", Mut: Mut{Kind: "splice", Pos: spans[len(spans)-2].From, To: spans[len(spans)-2].To, Data: putUvarint(nil, 1<<40)}, Isolate: true}},
+		{"crc-last-byte", "reject", "bit flip in the last byte of the trailer (mutants m7, m10)",
+			RejectCase{Snap: &one, Layout: "new", Path: "mem", Mut: Mut{Kind: "flip", Pos: len(oneFile) - 1, Bit: 0}}},
+		{"damaged-older-intact-newer", "reject", "the damaged file is the older one",
+			RejectCase{Snap: &one, Layout: "old", Path: "mem", Mut: Mut{Kind: "flip", Pos: 3, Bit: 6}}},
+		{"short-last-entry", "roundtrip", "fewer than ten bytes remain at the last peek (fix 8a4be88)", short},
+		{"version-straddles-4096", "roundtrip", "4-byte version across the decoder's buffer, type name longer than 5 bytes (fix 361c932)", straddle},
+	}
+	for _, k := range cases {
+		cb, _ := json.Marshal(k.c)
+		rb, _ := json.MarshalIndent(vlib.Replay{Property: "C12", Test: k.test, Key: "regress", Msg: k.note, Case: cb}, "", " ")
+		if err := os.WriteFile(filepath.Join(dir, k.name+".json"), rb, 0o644); err != nil {
+			t.Fatal(err)
+		}
+	}
+}
